@@ -290,13 +290,22 @@ def fork_eval(spec, cls, scenario, known, timeout=20.0):
         return dict(verdict="harness_error", error="unparsable child result")
 
 
-def make_scenario(spec, cls, verif_seed, index):
-    seed = derive_seed(verif_seed, spec.PROPERTY, cls, index)
+def make_scenario(spec, cls, verif_seed, index, depth=1):
+    from . import depth as _depth
+    seed = derive_seed(verif_seed, spec.PROPERTY,
+                       cls if depth == 1 else "%s@depth%d" % (cls, depth),
+                       index)
     rng = random.Random(seed)
-    sc = spec.generate(cls, rng)
+    _depth.D = depth
+    try:
+        sc = spec.generate(cls, rng)
+    finally:
+        _depth.D = 1
     sc["_seed"] = seed
     sc["_index"] = index
     sc["_cls"] = cls
+    if depth != 1:
+        sc["_depth"] = depth
     return sc
 
 
@@ -432,21 +441,23 @@ class Agg(object):
 
 
 def _worker(spec, jobs, verif_seed, known, wfd, deadline, wid, nworkers):
-    """jobs: list of (cls, n_runs, timeout, first_index). Worker wid takes
+    """jobs: list of (cls, n_runs, timeout, first_index[, depth]). Worker wid takes
     indices first+wid, first+wid+nworkers, ..."""
     agg = Agg()
     try:
-        for cls, n, timeout, first in jobs:
+        for job in jobs:
+            cls, n, timeout, first = job[:4]
+            depth = job[4] if len(job) > 4 else 1
             i = wid
             while i < n:
                 if time.monotonic() > deadline:
                     break
                 index = first + i
-                sc = make_scenario(spec, cls, verif_seed, index)
+                sc = make_scenario(spec, cls, verif_seed, index, depth)
                 res = fork_eval(spec, cls, sc, known, timeout)
                 if res.get("verdict") == "violation":
                     res["scenario"] = sc
-                agg.add(cls, index, res, sc)
+                agg.add(cls if depth == 1 else cls + "+deep", index, res, sc)
                 i += nworkers
         data = json.dumps(agg.to_wire(), default=repr).encode()
     except BaseException:
